@@ -31,21 +31,29 @@ import (
 const propID = "C15"
 
 type outlink struct {
-	Text string `json:"text"`
-	Via  string `json:"via"`
-	Hops int    `json:"hops"`
+	Text  string `json:"text"`
+	Via   string `json:"via"`
+	Hops  int    `json:"hops"`
+	After int    `json:"after_ms,omitempty"` // produced that long after the previous one (virtual time)
 }
 
 var outlinkSets = map[string][]outlink{
 	"three": {
-		{"http://o.example/plain", "http://page.example/a", 0},
-		{"http://o.example/with space?q=a b&r=50%25", "http://page.example/b?x=1", 1},
-		{"http://ö.example/ünïcode/❤", "http://page.example/c#frag", 2},
+		{"http://o.example/plain", "http://page.example/a", 0, 0},
+		{"http://o.example/with space?q=a b&r=50%25", "http://page.example/b?x=1", 1, 0},
+		{"http://ö.example/ünïcode/❤", "http://page.example/c#frag", 2, 0},
+	},
+	// outlinks discovered over time: the second one arrives while a timer-flushed batch holding the
+	// first may be in its retry back-off, the third after everything settled
+	"timed": {
+		{"http://o.example/first", "http://page.example/a", 1, 0},
+		{"http://o.example/second", "http://page.example/b", 3, 5500},
+		{"http://o.example/third", "http://page.example/c", 0, 7000},
 	},
 	"repeat": {
-		{"http://o.example/same", "http://page.example/a", 1},
-		{"http://o.example/same", "http://page.example/b", 1},
-		{"http://o.example/other", "http://page.example/a", 3},
+		{"http://o.example/same", "http://page.example/a", 1, 0},
+		{"http://o.example/same", "http://page.example/b", 1, 0},
+		{"http://o.example/other", "http://page.example/a", 3, 0},
 	},
 }
 
@@ -227,6 +235,9 @@ func scenario(s *scen) *vsched.Scenario {
 		}
 		go func() { // the postprocessor/finisher side: discovered outlinks
 			for i, l := range links {
+				if l.After > 0 {
+					time.Sleep(time.Duration(l.After) * time.Millisecond)
+				}
 				it := models.NewItem(fmt.Sprintf("outlink-%d", i), &models.URL{Raw: l.Text, Hops: l.Hops}, l.Via)
 				produceCh <- it
 			}
@@ -395,8 +406,11 @@ func scenarios(tier string) []scen {
 		F, P = 3, 1
 	}
 	var out []scen
-	for _, set := range []string{"three", "repeat"} {
+	for _, set := range []string{"three", "repeat", "timed"} {
 		for _, wb := range [][2]int{{2, 2}, {1, 3}, {2, 100}} { // size-triggered and ticker-triggered batches
+			if set == "timed" && wb[1] != 100 {
+				continue
+			}
 			out = append(out, scen{Queue: "hq", Outlinks: set, Workers: wb[0], Batch: wb[1], P: P, F: F})
 		}
 		for _, w := range []int{1, 2} {
